@@ -1,12 +1,212 @@
-(* C07 — property theorems only.  Proofs live in Proofs/PatternProofs.v. *)
-From Coq Require Import List String Bool Arith.
-From Annet Require Import Base.Str Model.Pattern Spec.P_C07 Proofs.PatternProofs.
+(* C07 — property theorems only.  Proofs live in Proofs/RegexProofs.v, Proofs/PatternProofs.v. *)
+From Coq Require Import List String Ascii Bool Arith.
+From Annet Require Import Base.Str Model.Pattern Spec.P_C07 Proofs.RegexProofs Proofs.PatternProofs.
 Import ListNotations.
 Open Scope string_scope.
 
+(* A plain pattern matches a row and extracts `key` exactly when the row's words start
+   with words matching the tokens one to one — `*` one word, `*/re/` one word of L(re),
+   a literal the same word, trailing `~` one or more remaining words, otherwise a word
+   boundary after the last token — and key = the bound words (`~`: the rest joined by
+   single spaces).  For every pattern, flag, row and key (no bound on lengths). *)
+Theorem C07_match_iff :
+  forall (p : pat) (ic : bool) (row : string) (key : list string),
+    pmatch p ic row = Some key <-> p <> [] /\ matches_spec ic p (words row) key.
+Proof.
+  intros p ic row key. destruct p as [|t p].
+  - split; [discriminate | intros [H _]; congruence].
+  - unfold pmatch. rewrite pmatch_words_iff. split; [intro H; split; [discriminate | exact H] | tauto].
+Qed.
+Print Assumptions C07_match_iff.
+
+(* what `words row` is on the rows of the property's domain *)
+Theorem C07_row_words :
+  forall row, wf_row row = true ->
+    words row <> [] /\ forallb word_ok (words row) = true /\ row = join_with " " (words row).
+Proof. exact wf_row_words. Qed.
+Print Assumptions C07_row_words.
+
+(* the boolean prefix-form checker used on implementation outputs decides the same relation *)
+Theorem C07_spec_checker :
+  forall p ic row key,
+    ref_match p ic row = Some key <-> p <> [] /\ matches_spec ic p (words row) key.
+Proof. intros. rewrite ref_match_eq. apply C07_match_iff. Qed.
+Print Assumptions C07_spec_checker.
+
+(* at most one key *)
+Theorem C07_key_unique :
+  forall ic p ws k1 k2, matches_spec ic p ws k1 -> matches_spec ic p ws k2 -> k1 = k2.
+Proof. exact matches_spec_functional. Qed.
+Print Assumptions C07_key_unique.
+
+(* one key entry per placeholder *)
 Theorem C07_key_length :
   forall p ic row key, pmatch p ic row = Some key -> List.length key = nholes p.
 Proof.
   intros p ic row key H. destruct p; [discriminate|]. eapply pmatch_words_key_length; exact H.
 Qed.
 Print Assumptions C07_key_length.
+
+(* the derivative matcher decides the language of a one-word regex *)
+Theorem C07_sre_match_lang :
+  forall ic r w, sre_imatch ic r w = true <-> sre_lang ic r (list_ascii_of_string w).
+Proof. exact sre_imatch_lang. Qed.
+Print Assumptions C07_sre_match_lang.
+
+(* _make_reverse(rule, prefix).format( *key ) = the negation word followed by the rule's
+   words with the key substituted for the placeholders (`~` included); the negation word
+   is dropped instead when the rule already starts with it; IndexError (None) exactly
+   when the key is too short *)
+Theorem C07_reverse :
+  forall p prefix key, wf_pat p = true -> plain_word prefix = true ->
+    format_template_opt (make_reverse (print_pat p) prefix) key = ref_reverse p prefix key.
+Proof. exact make_reverse_format. Qed.
+Print Assumptions C07_reverse.
+
+Theorem C07_reverse_template :
+  forall p prefix, wf_pat p = true -> plain_word prefix = true ->
+    make_reverse (print_pat p) prefix =
+    join_with " " (map (fun t => match t with Lit w => w | _ => "{}" end) (reverse_pat p prefix)).
+Proof. exact make_reverse_template. Qed.
+Print Assumptions C07_reverse_template.
+
+(* ACL / ordering reverse form: strip-or-prepend on the text is strip-or-prepend on the
+   tokens, and the result is again a pattern of the plain language *)
+Theorem C07_reverse_row :
+  forall p prefix, wf_pat p = true -> plain_word prefix = true ->
+    reverse_row (print_pat p) prefix = print_pat (reverse_pat p prefix)
+    /\ parse_pat (reverse_row (print_pat p) prefix) = Some (reverse_pat p prefix).
+Proof. intros. split; [apply reverse_row_print | apply parse_reverse_row]; assumption. Qed.
+Print Assumptions C07_reverse_row.
+
+(* negating a negated rule gives the rule back; a rule starting with the negation word
+   is stripped.  Any text, any negation word. *)
+Theorem C07_double_neg :
+  forall row prefix,
+    reverse_row (prefix ++ " " ++ row) prefix = row
+    /\ (startswith (prefix ++ " ") row = false ->
+        reverse_row row prefix = prefix ++ " " ++ row
+        /\ reverse_row (reverse_row row prefix) prefix = row)
+    /\ (startswith (prefix ++ " " ++ prefix ++ " ") row = false ->
+        reverse_row (reverse_row row prefix) prefix = row).
+Proof.
+  intros row prefix. split; [apply reverse_row_strips|]. split.
+  - intro H. split; [apply reverse_row_prepends | apply reverse_row_plain_twice]; exact H.
+  - apply reverse_row_involutive.
+Qed.
+Print Assumptions C07_double_neg.
+
+Theorem C07_double_neg_pat :
+  forall p prefix, p <> [] ->
+    (forall p', p <> Lit prefix :: Lit prefix :: p' \/ p' = []) ->
+    reverse_pat (reverse_pat p prefix) prefix = p.
+Proof. exact reverse_pat_involutive. Qed.
+Print Assumptions C07_double_neg_pat.
+
+(* ignore_case / (?i): a literal matches up to ASCII letter case; the whole outcome depends
+   on the row only up to letter case; case-sensitive matches stay matches (no regexps) *)
+Theorem C07_ignore_case :
+  forall p ws,
+    option_map (map lower_str) (pmatch_words p true (map lower_str ws)) =
+    option_map (map lower_str) (pmatch_words p true ws).
+Proof. exact pmatch_words_ic_row. Qed.
+Print Assumptions C07_ignore_case.
+
+Theorem C07_ignore_case_lit :
+  forall w x, word_eq true w x = true <-> lower_str w = lower_str x.
+Proof. intros. rewrite word_eq_ic. apply String.eqb_eq. Qed.
+Print Assumptions C07_ignore_case_lit.
+
+Theorem C07_case_sensitive_lit :
+  forall w x, word_eq false w x = true <-> w = x.
+Proof. intros. unfold word_eq. cbn. rewrite orb_false_r. apply String.eqb_eq. Qed.
+Print Assumptions C07_case_sensitive_lit.
+
+Theorem C07_ignore_case_mono :
+  forall p ws key, forallb (fun t => negb (is_re t)) p = true ->
+    pmatch_words p false ws = Some key -> pmatch_words p true ws = Some key.
+Proof. exact pmatch_words_ic_mono. Qed.
+Print Assumptions C07_ignore_case_mono.
+
+(* the rule-text parser and the printer are inverse on the plain language *)
+Theorem C07_parse_print :
+  forall p, wf_pat p = true -> parse_pat (print_pat p) = Some p.
+Proof. exact parse_pat_print. Qed.
+Print Assumptions C07_parse_print.
+
+Theorem C07_print_parse :
+  forall s p, parse_pat s = Some p -> wf_pat p = true /\ print_pat p = s.
+Proof. exact parse_pat_sound. Qed.
+Print Assumptions C07_print_parse.
+
+(* the model satisfies the property predicate, for every rule row of the plain language
+   written without the inline flag, every negation word, key and list of rows *)
+Theorem C07_holds :
+  forall x, wf_C07 x = true -> rule_has_ic (ci_rule x) = false -> P_C07 x (model_C07 x) = true.
+Proof. exact P_C07_model. Qed.
+Print Assumptions C07_holds.
+
+(* ... and the guard on the inline flag is needed: _make_reverse keeps the text "(?i)"
+   (known finding C07/plain/reverse-template-keeps-inline-flag, replayed on the real code) *)
+Theorem C07_inline_flag_refuted :
+  exists x, wf_C07 x = true /\ P_C07 x (model_C07 x) = false.
+Proof.
+  exists (C07In "(?i)snmp-agent sys-info *" "undo" false ["K"] ["SNMP-agent SYS-info version"]).
+  split; vm_compute; reflexivity.
+Qed.
+Print Assumptions C07_inline_flag_refuted.
+
+(* ------------------------------------------------------------------------------ *)
+(* non-vacuity                                                                     *)
+
+Example C07_ex_parse :
+  parse_pat "interface */\S+\.\d+/ mtu * ~" =
+  Some [Lit "interface";
+        StarRe (SCat (SPlus (SCls KNotSpace)) (SCat (SEsc ".") (SPlus (SCls KDigit))));
+        Lit "mtu"; Star; Tilde].
+Proof. vm_compute. reflexivity. Qed.
+
+Example C07_ex_match :
+  rule_match "interface */\S+\.\d+/ mtu * ~" false "interface ae1.100 mtu 9000 jumbo frames"
+  = Some ["ae1.100"; "9000"; "jumbo frames"].
+Proof. vm_compute. reflexivity. Qed.
+
+Example C07_ex_boundary :
+  rule_match "interface * mtu" false "interface ae1 mtu9000" = None
+  /\ rule_match "interface * mtu" false "interface ae1 mtu 9000" = Some ["ae1"]
+  /\ rule_match "interface *" false "interface" = None
+  /\ rule_match "interface ~" false "interface" = None.
+Proof. vm_compute. auto. Qed.
+
+Example C07_ex_ignore_case :
+  rule_match "snmp-agent *" true "SNMP-Agent Foo" = Some ["Foo"]
+  /\ rule_match "snmp-agent *" false "SNMP-Agent Foo" = None
+  /\ rule_match "interface */(?i)meth[\d\/]+/" false "interface MEth0/0/0" = Some ["MEth0/0/0"].
+Proof. vm_compute. auto. Qed.
+
+Example C07_ex_reverse :
+  wf_pat [Lit "interface"; Star; Lit "mtu"; StarRe (SPlus (SCls KDigit)); Tilde] = true
+  /\ make_reverse "interface * mtu */\d+/ ~" "undo" = "undo interface {} mtu {} {}"
+  /\ format_template (make_reverse "interface * mtu */\d+/ ~" "undo") ["ae1"; "9000"; "a b"]
+     = "undo interface ae1 mtu 9000 a b"
+  /\ make_reverse "undo interface * mtu */\d+/ ~" "undo" = "interface {} mtu {} {}"
+  /\ format_template_opt (make_reverse "interface * mtu */\d+/ ~" "undo") ["ae1"] = None.
+Proof. vm_compute. auto. Qed.
+
+Example C07_ex_double_neg :
+  reverse_row "no shutdown" "no" = "shutdown"
+  /\ reverse_row "shutdown" "no" = "no shutdown"
+  /\ reverse_row (reverse_row "no no x" "no") "no" = "x".       (* the guard of C07_double_neg is needed *)
+Proof. vm_compute. auto. Qed.
+
+Example C07_ex_outside :
+  parse_pat "vlan */[^\d].*/" = None                      (* `.` may cross a blank *)
+  /\ parse_pat "ip */(ip|ipv6)/-prefix *" = None          (* placeholder glued to a literal *)
+  /\ parse_pat "(?:ip|ipv6) route" = None                  (* regex source in a literal word *)
+  /\ parse_pat "a ~ b" = None.
+Proof. vm_compute. auto. Qed.
+
+Example C07_ex_regex_src :
+  option_map regex_src (parse_pat "interface * mtu */(a|b)\d+/") =
+  Some "^interface\s+([^\s]+)\s+mtu\s+((?:a|b)\d+)(?:\s|$)".
+Proof. vm_compute. reflexivity. Qed.
